@@ -87,9 +87,10 @@ def make_svd_stub(S, rec=None, exact=False, square_u=False):
             rec.append(dict(matrix=matrix, n_eigenvecs=n_eigenvecs, kw=dict(kw), at=G.caller_snapshot()))
         if S.name == "sym":
             k = n_eigenvecs
-            U = G.opaque_tensor("SVDU", [G.axis_sizes(matrix)[0], k], matrix.dtype, ortho_axis=2 if square_u else 0)
-            Sv = G.opaque_tensor("SVDS", [k], real_dtype(matrix))  # dtype contract: real, same precision
-            V = G.opaque_tensor("SVDV", [k, G.axis_sizes(matrix)[1]], matrix.dtype, ortho_axis=1)
+            nonneg = kw.get("non_negative") not in (None, False)   # svd_interface's contract: with the non-negative option both factors are entrywise non-negative (NNDSVD, C05) - and no longer orthonormal
+            U = G.opaque_tensor("SVDU", [G.axis_sizes(matrix)[0], k], matrix.dtype, ortho_axis=None if nonneg else (2 if square_u else 0), nonneg=nonneg)
+            Sv = G.opaque_tensor("SVDS", [k], real_dtype(matrix), nonneg=True)  # contract: singular values are non-negative; dtype real, same precision
+            V = G.opaque_tensor("SVDV", [k, G.axis_sizes(matrix)[1]], matrix.dtype, ortho_axis=None if nonneg else 1, nonneg=nonneg)
             G.NONNEG.add(G.name_of(Sv))
             if exact:
                 G.register_factorisation((G.name_of(U), G.name_of(Sv), G.name_of(V)), matrix)
